@@ -236,6 +236,41 @@ Definition shown_degenerate (fam : family) (color_mode : bool) (lo v : Z) : Z :=
   | _, true => 0
   end.
 
+(* --- layer values outside Z: a constant layer of +inf / -inf (float layers may hold them) ---
+   extended values and the normalisation expression of the imshow colour mode AS REPAIRED:
+     (data - vmin) / (vmax - vmin)  if vmax != vmin  else  zeros
+   IEEE: inf - inf = nan, nan != x is True for every x, inf == inf *)
+Inductive xz := Fin (z : Z) | PInf | NInf | XNaN.
+Definition xeqb (a b : xz) : bool :=
+  match a, b with
+  | Fin x, Fin y => x =? y
+  | PInf, PInf | NInf, NInf => true
+  | _, _ => false
+  end.
+Definition xsub (a b : xz) : xz :=
+  match a, b with
+  | XNaN, _ | _, XNaN => XNaN
+  | Fin x, Fin y => Fin (x - y)
+  | PInf, PInf | NInf, NInf => XNaN
+  | PInf, _ | Fin _, NInf => PInf
+  | NInf, _ | Fin _, PInf => NInf
+  end.
+(* what the alpha channel of a cell is, as far as the statement cares: exactly 0, NaN, or something else *)
+Inductive alpha_kind := AZero | ANaN | AOther.
+Definition xdiv_kind (num den : xz) : alpha_kind :=
+  match num, den with
+  | XNaN, _ | _, XNaN => ANaN
+  | Fin 0, Fin d => if d =? 0 then ANaN else AZero
+  | Fin _, Fin d => if d =? 0 then AOther else AOther
+  | Fin _, _ => AZero                     (* finite / +-inf = 0 *)
+  | _, Fin _ => AOther                    (* +-inf / finite = +-inf, clipped *)
+  | _, _ => ANaN                          (* inf / inf *)
+  end.
+Definition alpha_color_mode (v lo hi : xz) : alpha_kind :=
+  if negb (xeqb hi lo) then xdiv_kind (xsub v lo) (xsub hi lo) else AZero.
+Definition INF : Z := 1000000007.
+Definition alpha_code (a : alpha_kind) : Z := match a with AZero => 0 | ANaN => -7 | AOther => -6 end.
+
 (* the value shown for a layer entry, whatever the scale *)
 Definition value_shown (fam : family) (color_mode : bool) (lo hi a4 v : Z) : Z :=
   if hi =? lo then shown_degenerate fam color_mode lo v else shown fam color_mode lo hi a4 v.
@@ -346,7 +381,9 @@ Inductive op :=
 | Bind (s : list param) (ps : list Z)                  (* does the keyword call M(k=.., ...) itself succeed *)
 | DrawMplC (default_portrayal : bool)      (* make_space_component(backend="matplotlib")(model): the Figure handed to Solara *)
 | DrawAltairC (default_portrayal : bool)   (* make_space_component(backend="altair")(model): the Chart handed to Solara *)
-| DrawAltairEnc.                           (* _draw_grid: the encodings of the chart (from the keys of all rows) *)
+| DrawAltairEnc                            (* _draw_grid: the encodings of the chart (from the keys of all rows) *)
+| DrawInfLayer (color_mode neg : bool).    (* a second, float layer that is constantly +inf / -inf, drawn with the default
+                                              or the explicit degenerate scale *)
 
 Definition find_agent (id : Z) (l : list agent) : option agent := find (fun a => a_id a =? id) l.
 Definition occupied (p : coord) (l : list agent) : bool := existsb (at_cell p) l.
@@ -542,6 +579,15 @@ Definition step (sp : space) (pt : portrayal) (st : state) (o : op) : state * li
   | DrawMplC dflt => (st, obs_mpl sp (if dflt then [] else pt) ags)
   | DrawAltairC dflt => (st, obs_altair sp (if dflt then [] else pt) ags)
   | DrawAltairEnc => (st, obs_altair_enc sp pt ags)
+  | DrawInfLayer cm neg =>
+      match st_layer st with
+      | None => (st, OBS_NOOP)
+      | Some _ =>
+          let c := if neg then NInf else PInf in
+          let code := if cm then alpha_code (alpha_color_mode c c c)
+                      else match sp_family sp with Hex => 0 | _ => if neg then - INF else INF end in
+          (st, 0 :: sp_h sp :: sp_w sp :: map (fun _ => code) (layer_view sp []))
+      end
   end.
 
 Fixpoint run_ops (sp : space) (pt : portrayal) (st : state) (ops : list op) : list (list Z) :=
